@@ -407,7 +407,7 @@ defvjp(anp.kron, partial(grad_kron, 0), partial(grad_kron, 1))
 
 def grad_transpose(ans, x, axes=None):
     if axes is not None:
-        axes = anp.argsort(axes)
+        axes = anp.argsort([axis % len(axes) for axis in axes])
     return lambda g: anp.transpose(g, axes)
 
 
